@@ -150,8 +150,11 @@ LawUnitsKept ==
 Expected(x) ==
   CASE x.kind = "scalar" -> [kind |-> "scalar", f |-> x.f, v |-> x.v, u |-> x.u,
                              out |-> ApplyS(x.f, x.v, x.u)]
+    \* the updater named in an update applies to that update only: a plain
+    \* update that follows is combined by the declared updater again (out2)
     [] x.kind = "override" -> [kind |-> "override", f |-> x.f, g |-> x.g, v |-> x.v, u |-> x.u,
-                               out |-> ApplyS(x.g, x.v, x.u)]
+                               out |-> ApplyS(x.g, x.v, x.u),
+                               out2 |-> ApplyS(x.f, ApplyS(x.g, x.v, x.u), x.u)]
     [] x.kind = "batch" -> [kind |-> "batch", us |-> x.us, init |-> InitialV, decl |-> Declared,
                             out |-> Fold(InitialV, x.us)]
     [] x.kind = "merge" -> [kind |-> "merge", v |-> x.v, u |-> x.u, out |-> Merge(x.v, x.u)]
@@ -159,6 +162,12 @@ Expected(x) ==
                                  del |-> x.op.del, upd |-> x.op.upd,
                                  out |-> ApplyDict(x.cur, x.op)]
     [] x.kind = "units" -> [kind |-> "units", cs |-> x.cs, base |-> UnitResultBase(x.cs)]
+
+LawOverrideOnce ==
+  c.kind = "override" =>
+    /\ Expected(c).out = ApplyS(c.g, c.v, c.u)
+    /\ Expected(c).out2 = ApplyS(c.f, Expected(c).out, c.u)
+    /\ (c.f = "accumulate" /\ c.g = "set" => Expected(c).out2 = c.u + c.u)
 
 Export ==
   /\ TLCGet("stats").generated >= 0
